@@ -522,3 +522,134 @@ Definition to_option {A : Type} (r : res A) : option A := match r with Ok a => S
 
 (* two views of the file system (two working directories) that agree on the bundled directory *)
 Definition bundled_agree (fs1 fs2 : fsys) : Prop := forall p, fs_lookup fs1 (Bundled p) = fs_lookup fs2 (Bundled p).
+
+(* ========================================================================================== *)
+(* Concrete paths: the path-resolution rule of main()._parse_config over                        *)
+(* (working-directory components, argument components, bundled directory, set of files).        *)
+(* The abstract cfgarg / fsys layer above takes the classification as given; here it is          *)
+(* computed from the spelling of the argument, so that "which file is read" is decided for       *)
+(* every spelling x working directory.  Symbolic links are not modelled.                         *)
+(* ========================================================================================== *)
+Inductive comp :=
+| CDot                                        (* "."  *)
+| CUp                                         (* ".." *)
+| CName (id : Z) (ini : bool) (lead : Z).     (* a name; ini: it ends with ".ini"; lead: 0 ordinary, 1 begins with ".", 2 begins with "~" *)
+
+Definition comp_eqb (a b : comp) : bool :=
+  match a, b with
+  | CDot, CDot => true
+  | CUp, CUp => true
+  | CName x i l, CName y j m => (x =? y) && Bool.eqb i j && (l =? m)
+  | _, _ => false
+  end.
+
+Fixpoint comps_eqb (a b : list comp) : bool :=
+  match a, b with
+  | [], [] => true
+  | x :: a', y :: b' => comp_eqb x y && comps_eqb a' b'
+  | _, _ => false
+  end.
+
+Record pathstr := mkPath { p_abs : bool; p_comps : list comp }.   (* split on "/", empty components dropped *)
+
+(* posixpath.normpath on the components; `stack` is the result so far, reversed *)
+Fixpoint norm_aux (abs : bool) (l : list comp) (stack : list comp) : list comp :=
+  match l with
+  | [] => rev stack
+  | CDot :: r => norm_aux abs r stack
+  | CUp :: r =>
+      match stack with
+      | [] => if abs then norm_aux abs r [] else norm_aux abs r [CUp]
+      | CUp :: _ => norm_aux abs r (CUp :: stack)
+      | _ :: s' => norm_aux abs r s'
+      end
+  | c :: r => norm_aux abs r (c :: stack)
+  end.
+
+Definition norm (p : pathstr) : list comp := norm_aux (p_abs p) (p_comps p) [].
+
+(* config.endswith(".ini") on the normalised string ("." and "/" have no components) *)
+Definition ends_ini (n : list comp) : bool :=
+  match last n CDot with CName _ true _ => true | _ => false end.
+
+(* len(config.split(os.sep)) == 2 and not startswith(os.sep) / "." / "~" *)
+Definition is_dirfile (abs : bool) (n : list comp) : bool :=
+  negb abs && match n with [CName _ _ lead; _] => lead =? 0 | _ => false end.
+
+(* the file (absolute, normalised components) a --config argument names, None = not an .ini name:
+   Dir/file.ini -> under the bundled directory; absolute -> that file; otherwise relative to the working directory *)
+Definition resolve_path (bdir cwd : list comp) (p : pathstr) : option (list comp) :=
+  let n := norm p in
+  if negb (ends_ini n) then None
+  else if is_dirfile (p_abs p) n then Some (bdir ++ n)
+  else Some (if p_abs p then n else norm_aux true (cwd ++ n) []).
+
+(* what open() reaches when handed the raw argument *)
+Definition as_given_file (cwd : list comp) (p : pathstr) : list comp :=
+  if p_abs p then norm p else norm_aux true (cwd ++ p_comps p) [].
+
+Record world := mkWorld { w_bdir : list comp; w_files : list (list comp * ini) }.
+
+Fixpoint w_lookup (fs : list (list comp * ini)) (f : list comp) : option ini :=
+  match fs with
+  | [] => None
+  | (g, c) :: r => if comps_eqb g f then Some c else w_lookup r f
+  end.
+
+Definition parse_config_path_c (w : world) (cwd : list comp) (p : pathstr) : res (list comp) :=
+  match resolve_path (w_bdir w) cwd p with
+  | None => Err EVela
+  | Some f => match w_lookup (w_files w) f with Some _ => Ok f | None => Err EVela end
+  end.
+
+Fixpoint parse_all_c (w : world) (cwd : list comp) (l : list pathstr) : res (list (list comp)) :=
+  match l with
+  | [] => Ok []
+  | a :: r => x <- parse_config_path_c w cwd a ;; xs <- parse_all_c w cwd r ;; Ok (x :: xs)
+  end.
+
+Definition read_files_c (w : world) (fs : list (list comp)) : ini :=
+  concat (rev (map (fun f => match w_lookup (w_files w) f with Some c => c | None => [] end) fs)).
+
+Record cliargs_c := mkCliC {
+  c_config : list pathstr; c_u65 : bool; c_sys : text; c_mem : text; c_acs : option Z }.
+
+Definition main_concrete (pm : main_params) (w : world) (cwd : list comp) (a : cliargs_c) : res arch :=
+  resolved <- parse_all_c w cwd (c_config a) ;;
+  let handed := if pm_pass_resolved pm then resolved else map (as_given_file cwd) (c_config a) in
+  let files := match c_config a with [] => None | _ => Some (read_files_c w handed) end in
+  let imx := pm_imx93 pm && (match c_config a with [] => true | _ => false end)
+             && text_eqb (c_sys a) SEC_SYS_DEFAULT && text_eqb (c_mem a) SEC_MEM_DEFAULT in
+  let cli := match c_acs a with Some v => Some v | None => pm_arena_default pm end in
+  get_vela_config (c_u65 a) imx files (c_sys a) (c_mem a) cli.
+
+(* SPEC: every argument must name a readable .ini file (by the rule above); the files are read as a group *)
+Fixpoint spec_inis (w : world) (cwd : list comp) (l : list pathstr) : option (list ini) :=
+  match l with
+  | [] => Some []
+  | a :: r =>
+      f <~ resolve_path (w_bdir w) cwd a ;;
+      c <~ w_lookup (w_files w) f ;;
+      cs <~ spec_inis w cwd r ;;
+      Some (c :: cs)
+  end.
+
+Definition spec_main_c (w : world) (cwd : list comp) (a : cliargs_c) : option arch :=
+  match c_config a with
+  | [] => spec_resolve (c_u65 a) None (c_sys a) (c_mem a) (c_acs a)
+  | args => cs <~ spec_inis w cwd args ;; spec_resolve (c_u65 a) (Some (concat (rev cs))) (c_sys a) (c_mem a) (c_acs a)
+  end.
+
+(* os.path.relpath(p) from the (absolute, normalised) working directory: the variant of the seeded change *)
+Fixpoint strip_common (a b : list comp) : list comp * list comp :=
+  match a, b with
+  | x :: a', y :: b' => if comp_eqb x y then strip_common a' b' else (a, b)
+  | _, _ => (a, b)
+  end.
+
+Definition relpath (cwd : list comp) (p : pathstr) : pathstr :=
+  let (up, down) := strip_common cwd (as_given_file cwd p) in
+  mkPath false (repeat CUp (List.length up) ++ down).
+
+(* an argument whose resolution cannot depend on the working directory *)
+Definition cwd_free (p : pathstr) : bool := p_abs p || is_dirfile (p_abs p) (norm p).
